@@ -28,6 +28,14 @@ func GenFunc(prog *Prog, fn *ssa.Function, fc *FuncContract) *VC {
 	vc := &VC{enc: enc, prog: prog, fn: fn, fc: fc, clos: map[string]*closureVal{}, memDeclared: map[string]bool{}, recSpecs: map[string]*recSpecInfo{}, nameCount: map[string]int{}}
 	vc.qname = prog.shortPkg(fn.Pkg.Pkg.Path()) + "." + fc.Name
 	vc.noSafety = fc.NoSafety
+	// nosafety safetykinds=index,slice: functional clauses plus the listed kinds of safety obligations (in the function's
+	// own body) — for functions whose pointer preconditions are not stated but whose index arithmetic is decidable
+	vc.safetyKinds = map[string]bool{}
+	for _, k := range strings.Split(fc.Options["safetykinds"], ",") {
+		if k != "" {
+			vc.safetyKinds[k] = true
+		}
+	}
 	fr := vc.newFrame(fn, fc, 0)
 	vc.top = fr
 	// entry state
